@@ -240,7 +240,7 @@ pub fn run(tier: &str, seed: u64, only: Option<&str>) -> Run {
         let jobs: Vec<(usize, u8)> = (0..n_jobs)
             .map(|_| {
                 let ri = if rng.chance(1, 3) { *rng.pick(&hot) } else { rng.below(pool.reqs.len() as u64) as usize };
-                (ri, rng.below(4) as u8)
+                (ri, rng.below(8) as u8)
             })
             .collect();
         let mut ctx = Ctx::default();
